@@ -2,6 +2,7 @@ package leader
 
 import (
 	"context"
+	"sync"
 	"time"
 
 	"github.com/nats-io/nats.go"
@@ -460,29 +461,44 @@ func (a *natsKeyValueAdapter) Watch(key string, opts ...interface{}) (Watcher, e
 	if err != nil {
 		return nil, err
 	}
-	return &natsWatcherAdapter{watcher: natsWatcher}, nil
+	return &natsWatcherAdapter{watcher: natsWatcher, done: make(chan struct{})}, nil
 }
 
 type natsWatcherAdapter struct {
 	watcher nats.KeyWatcher
+
+	// Updates() must hand out one stable channel: the watch loop calls it on
+	// every iteration. A channel (and forwarding goroutine) per call would leave
+	// abandoned forwarders competing for the watcher's events and losing them.
+	once      sync.Once
+	entryChan chan Entry
+	done      chan struct{}
+	stopOnce  sync.Once
 }
 
 func (a *natsWatcherAdapter) Updates() <-chan Entry {
-	entryChan := make(chan Entry, 1)
-	go func() {
-		defer close(entryChan)
-		for natsEntry := range a.watcher.Updates() {
-			if natsEntry != nil {
-				entryChan <- &natsEntryAdapter{entry: natsEntry}
-			} else {
-				entryChan <- nil
+	a.once.Do(func() {
+		a.entryChan = make(chan Entry, 1)
+		go func() {
+			defer close(a.entryChan)
+			for natsEntry := range a.watcher.Updates() {
+				var entry Entry
+				if natsEntry != nil {
+					entry = &natsEntryAdapter{entry: natsEntry}
+				}
+				select {
+				case a.entryChan <- entry:
+				case <-a.done:
+					return
+				}
 			}
-		}
-	}()
-	return entryChan
+		}()
+	})
+	return a.entryChan
 }
 
 func (a *natsWatcherAdapter) Stop() {
+	a.stopOnce.Do(func() { close(a.done) })
 	_ = a.watcher.Stop()
 }
 
